@@ -196,7 +196,8 @@ def gen_c01(r, tier):
     return {'config': {'frames': frames,
                        'identity_fault': r.weighted([(12, None),
                                                      (1, 'keyerror'),
-                                                     (0.5, 'oserror')])},
+                                                     (0.5, 'oserror')]),
+                       'deprecations_are_errors': r.chance(0.08)},
             'ops': ops}
 
 
@@ -237,7 +238,8 @@ def gen_c09(r, tier):
     return {'config': {'frames': frames,
                        'identity_fault': r.weighted([(12, None),
                                                      (1, 'keyerror'),
-                                                     (0.5, 'oserror')])},
+                                                     (0.5, 'oserror')]),
+                       'deprecations_are_errors': r.chance(0.08)},
             'ops': ops}
 
 
@@ -369,6 +371,11 @@ def execute(plan):
              'stdin': sys.stdin}
     with World() as W, warnings.catch_warnings():
         warnings.simplefilter('ignore')
+        if plan['config'].get('deprecations_are_errors'):
+            # the process runs with -W error::DeprecationWarning (a common
+            # CI setting)
+            warnings.simplefilter('error', DeprecationWarning)
+            ctx.stats['faults']['deprecation_warnings_are_errors'] += 1
         ctx.W = W
         base.socket = types.SimpleNamespace(gethostname=lambda: 'simhost')
         idf = plan['config'].get('identity_fault')
